@@ -3,6 +3,7 @@ package c12
 import (
 	"bytes"
 	"fmt"
+	"hash/fnv"
 	"sort"
 	"strings"
 	"testing"
@@ -13,16 +14,30 @@ import (
 	"verif/harness/vlib/cbormut"
 )
 
+// mine shards the registry: all entries with the same primary source go to the same shard, so
+// that a protocol run is (mostly) paid for by one shard only.
+func mine(i int, e *entry) bool {
+	_, n := vlib.Shard()
+	if n <= 1 || len(e.sources) == 0 {
+		return vlib.Mine(i)
+	}
+	h := fnv.New32a()
+	_, _ = h.Write([]byte(e.sources[0]))
+	return vlib.Mine(int(h.Sum32() % 65521))
+}
+
 // mustSamples loads the samples of an entry; a source that fails or an entry without samples is a
 // failure of the harness' own corpus (reported as a test failure, never silently skipped).
 func mustSamples(t testing.TB, e *entry) []sample {
 	t.Helper()
 	ss, err := e.load()
 	if err != nil {
-		t.Fatalf("corpus: %s: %v", e.name, err)
+		t.Errorf("corpus: %s: %v", e.name, err)
+		return nil
 	}
 	if len(ss) == 0 {
-		t.Fatalf("corpus: no sample of %s was produced by its sources %v", e.name, e.sources)
+		t.Errorf("corpus: no sample of %s was produced by its sources %v", e.name, e.sources)
+		return nil
 	}
 	return ss
 }
@@ -34,10 +49,13 @@ func TestRegistry(t *testing.T) {
 	seen := map[string]int{}
 	for i, e := range registry {
 		seen[e.family]++
-		if !vlib.Mine(i) {
+		if !mine(i, e) {
 			continue
 		}
 		ss := mustSamples(t, e)
+		if ss == nil {
+			continue
+		}
 		vlib.Case(test, e.name, compositeEncoding(ss[0].enc), "family="+e.family, fmt.Sprintf("samples=%d", len(ss)))
 	}
 	for _, f := range families {
@@ -54,35 +72,49 @@ func TestRegistry(t *testing.T) {
 func TestRoundTrip(t *testing.T) {
 	const test = "RoundTrip"
 	for i, e := range registry {
-		if !vlib.Mine(i) {
+		if !mine(i, e) {
 			continue
 		}
 		for k, s := range mustSamples(t, e) {
+			failed := false
+			fail := func(f string, a ...any) { failed = true; t.Errorf(f, a...) }
 			what := fmt.Sprintf("%s sample %d (from %s) encoding %s", e.name, k, s.src, hx(s.enc))
 			b2, err := safeEncode(e, s.v)
 			if err != nil || !bytes.Equal(b2, s.enc) {
-				t.Fatalf("%s: encoding twice gives different bytes (second %s err=%v)", what, hx(b2), err)
+				fail("%s: encoding twice gives different bytes (second %s err=%v)", what, hx(b2), err)
 			}
-			if s.wire != nil && !bytes.Equal(s.wire, s.enc) {
-				t.Fatalf("%s: the message as sent on the wire is %s, the decoded message re-encodes differently", what, hx(s.wire))
+			if s.wire != nil && !sameEncoding(e, s.wire, s.enc) {
+				fail("%s: the message as sent on the wire is %s, the decoded message re-encodes differently", what, hx(s.wire))
+			}
+			if failed {
+				continue
 			}
 			if err := deepValid(s.v); err != nil {
-				t.Fatalf("harness or library: %s: an honestly produced value fails its validity predicate: %v", what, err)
+				fail("harness or library: %s: an honestly produced value fails its validity predicate: %v", what, err)
+			}
+			if failed {
+				continue
 			}
 			v := judge(e, s.enc)
 			if v.viol != "" {
-				t.Fatalf("%s: %s", what, v.viol)
+				fail("%s: %s", what, v.viol)
+				continue
 			}
 			if v.class != "accepted-same" {
-				t.Fatalf("%s: decoding the valid encoding gives class %q (want accepted and re-encoded to the same bytes)", what, v.class)
+				fail("%s: decoding the valid encoding gives class %q (want accepted and re-encoded to the same bytes)", what, v.class)
+			}
+			if failed {
+				continue
 			}
 			var dec any
 			if p, _ := safely(func() { dec, err = e.decode(s.enc) }); p != nil || err != nil {
-				t.Fatalf("%s: does not decode: %v %v", what, p, err)
+				fail("%s: does not decode: %v %v", what, p, err)
+				continue
 			}
 			eq, how, err := equalAny(e, s.v, dec)
 			if err != nil || !eq {
-				t.Fatalf("%s: the decoded value is not equal (%s) to the encoded one (err=%v)", what, how, err)
+				fail("%s: the decoded value is not equal (%s) to the encoded one (err=%v)", what, how, err)
+				continue
 			}
 			comp := compositeEncoding(s.enc)
 			vlib.Case(test, vlib.Desc(e.name, "R"), comp, "family="+e.family, "equality="+how)
@@ -100,6 +132,19 @@ func TestRoundTrip(t *testing.T) {
 	sort.Strings(hit)
 	t.Logf("validity rules exercised on valid samples: %s", strings.Join(hit, " "))
 	vlib.Exhaustive("oracle R on every corpus sample of every registry entry")
+}
+
+// TestKnownFindings re-observes the catalogued deviations that are not tied to a structural
+// placement (those are re-observed by TestStructural).
+func TestKnownFindings(t *testing.T) {
+	const test = "KnownFindings"
+	if e := byName["*hierarchical.HierarchicalConjunctiveThreshold"]; e == nil || !mine(0, e) {
+		t.Skip("observed by the shard that owns the access structures")
+	}
+	present, what := observeHierOrder()
+	vlib.Known(knownHierOrder, present, what)
+	vlib.Case(test, knownHierOrder, true, fmt.Sprintf("present=%v", present))
+	t.Logf("%s present=%v: %s", knownHierOrder, present, what)
 }
 
 // ---- (M) malformed containers --------------------------------------------------------------------------------
@@ -122,10 +167,13 @@ func limitPos(ps []pos, n int) []pos {
 func TestMalformed(t *testing.T) {
 	const test = "Malformed"
 	for i, e := range registry {
-		if !vlib.Mine(i) {
+		if !mine(i, e) {
 			continue
 		}
 		ss := mustSamples(t, e)
+		if ss == nil {
+			continue
+		}
 		if len(ss) > 2 {
 			ss = ss[:2]
 		}
@@ -141,7 +189,8 @@ func TestMalformed(t *testing.T) {
 					return
 				}
 				if err == nil {
-					t.Fatalf("%s: a malformed container was ACCEPTED: %s at %s (decoded %T nil=%v)\nvalid   %s\ninput   %s", e.name, class, where, obj, isNilAny(obj), hx(s.enc), hx(b))
+					t.Errorf("%s: a malformed container was ACCEPTED: %s at %s (decoded %T nil=%v)\nvalid   %s\ninput   %s", e.name, class, where, obj, isNilAny(obj), hx(s.enc), hx(b))
+					return
 				}
 				vlib.Case(test, vlib.Desc(e.name, "M", class), comp, "class="+class, "family="+e.family)
 			}
@@ -275,14 +324,24 @@ func TestMalformed(t *testing.T) {
 func TestStructural(t *testing.T) {
 	const test = "Structural"
 	for i, e := range registry {
-		if !vlib.Mine(i) {
+		if !mine(i, e) {
 			continue
 		}
-		s := mustSamples(t, e)[0]
+		ss0 := mustSamples(t, e)
+		if ss0 == nil {
+			continue
+		}
+		s := ss0[0]
 		root, err := cbormut.Parse(s.enc)
 		if err != nil {
 			t.Fatalf("harness: valid encoding of %s does not parse: %v", e.name, err)
 		}
+		type obs struct {
+			example string
+			sites   map[string]bool
+			n       int
+		}
+		failing := map[string]*obs{} // pin key -> what was seen
 		seen := map[string]bool{}
 		for _, p0 := range positions(root) {
 			if seen[p0.class] {
@@ -303,11 +362,22 @@ func TestStructural(t *testing.T) {
 				}
 				b := r.Encode()
 				v := judge(e, b)
-				id := findingID(op, v.kind)
-				key := pinString(e, op, p0.class, v.kind)
 				if v.viol != "" {
-					if isPinned(key) {
-						observe(id, true, fmt.Sprintf("%s %s@%s input %s", e.name, op, p0.class, vlib.Hex(b)))
+					key := pinString(e, op, p0.class, v.kind)
+					o := failing[key]
+					if o == nil {
+						o = &obs{sites: map[string]bool{}}
+						failing[key] = o
+					}
+					o.n++
+					if v.site != "" {
+						o.sites[v.site] = true
+					}
+					if o.example == "" || len(b) < 24 {
+						o.example = fmt.Sprintf("%s@%s input %s", op, p0.class, vlib.Hex(b))
+					}
+					if collectMode && v.site != "" {
+						fmt.Printf("SITE %s %s\n", key, v.site)
 					}
 					if !tolerated(e, op, p0.class, v.kind, b) {
 						t.Fatalf("%s: %s at %s of a valid encoding: %s\nvalid %s\ninput %s", e.name, op, p0.path, v.viol, hx(s.enc), hx(b))
@@ -315,17 +385,45 @@ func TestStructural(t *testing.T) {
 					vlib.Case(test, vlib.Desc(e.name, "V", op, p0.class), true, "op="+op, "outcome=KNOWN-"+v.kind, "family="+e.family)
 					continue
 				}
-				for _, kind := range []string{"panic", "invalid", "reencode", "idempotence"} {
-					if k2 := pinString(e, op, p0.class, kind); isPinned(k2) {
-						observe(findingID(op, kind), false, "")
-					}
+				cls := []string{"op=" + op, "outcome=" + v.class, "family=" + e.family}
+				if v.note != "" {
+					cls = append(cls, "note="+v.note)
 				}
-				vlib.Case(test, vlib.Desc(e.name, "V", op, p0.class), true, "op="+op, "outcome="+v.class, "family="+e.family)
+				vlib.Case(test, vlib.Desc(e.name, "V", op, p0.class), true, cls...)
+			}
+		}
+		// report, per pinned (type, operator group, kind), whether it was still observed
+		prefix := e.pinKey() + "|"
+		for _, k := range pinned {
+			if !strings.HasPrefix(k, prefix) {
+				continue
+			}
+			parts := strings.Split(k, "|")
+			id := "C12-" + parts[1] + "-" + parts[2]
+			if o := failing[k]; o != nil {
+				var sites []string
+				for st := range o.sites {
+					sites = append(sites, st)
+				}
+				sort.Strings(sites)
+				observe(id, true, fmt.Sprintf("%s: %d placements, e.g. %s%s", e.name, o.n, o.example, sitesNote(sites)))
+			} else {
+				observe(id, false, "")
 			}
 		}
 	}
 	reportKnown()
 	vlib.Exhaustive("every (field class, structural operator) placement on the first sample of every registry entry")
+}
+
+func sitesNote(sites []string) string {
+	if len(sites) == 0 {
+		return ""
+	}
+	if len(sites) > 3 {
+		sites = sites[:3]
+	}
+	return " (panics in " + strings.Join(sites, ", ") + ")"
 }
 
 // ---- (V) drawn mutations ----------------------------------------------------------------------------------------
@@ -338,12 +436,15 @@ func TestMutate(t *testing.T) {
 	const test = "Mutate"
 	_, nShards := vlib.Shard()
 	for i, e := range registry {
-		if !vlib.Mine(i) {
+		if !mine(i, e) {
 			continue
 		}
 		e := e
 		t.Run(sanitize(e.name), func(t *testing.T) {
 			ss := mustSamples(t, e)
+			if ss == nil {
+				return
+			}
 			var trees []*cbormut.Node
 			for _, s := range ss {
 				r, err := cbormut.Parse(s.enc)
@@ -397,7 +498,11 @@ func TestMutate(t *testing.T) {
 					vlib.Case(test, vlib.Desc(e.name, "V", op, class), perr == nil, "op="+op, "outcome=KNOWN-"+v.kind, "family="+e.family)
 					return
 				}
-				vlib.Case(test, vlib.Desc(e.name, "V", op, class), perr == nil, "op="+op, "outcome="+v.class, "family="+e.family)
+				cls := []string{"op=" + op, "outcome=" + v.class, "family=" + e.family}
+				if v.note != "" {
+					cls = append(cls, "note="+v.note)
+				}
+				vlib.Case(test, vlib.Desc(e.name, "V", op, class), perr == nil, cls...)
 				vlib.Sample("mutation", map[string]any{"type": e.name, "op": op, "class": class, "outcome": v.class})
 			})
 		})
@@ -476,19 +581,22 @@ func TestRawBytes(t *testing.T) {
 	}
 	sort.Strings(hnames)
 	for i, e := range registry {
-		if !vlib.Mine(i) {
+		if !mine(i, e) {
 			continue
 		}
 		e := e
 		t.Run(sanitize(e.name), func(t *testing.T) {
 			ss := mustSamples(t, e)
+			if ss == nil {
+				return
+			}
 			// every hostile constant once
 			for _, hn := range hnames {
 				b := hostile[hn]
 				v := judge(e, b)
 				_, perr := cbormut.Parse(b)
 				if v.viol != "" {
-					if !tolerated(e, "hostile", hn, v.kind, b) {
+					if !tolerated(e, "hostile:"+hn, hn, v.kind, b) {
 						t.Fatalf("%s: hostile constant %s: %s\ninput %s", e.name, hn, v.viol, hx(b))
 					}
 					continue
